@@ -15,17 +15,23 @@ use typst_syntax::{
 /// Directly translate a span ($a) in a Typst source ($doc) to a token.
 macro_rules! def_token {
     ($doc:expr, $a:expr, $kind:expr, $offset:ident) => {{
-        let range = $doc.range($a.span()).unwrap();
-        let start = $offset.push_to(range.start);
-        let end_char_loc = start.push_to(range.end).char;
+        // A child that is missing from the source (`#set `, `#f(..)` while being typed) is
+        // represented by a default node with a detached span: there is nothing to translate.
+        match $doc.range($a.span()) {
+            Some(range) => {
+                let start = $offset.push_to(range.start);
+                let end_char_loc = start.push_to(range.end).char;
 
-        Some(vec![Token {
-            span: harper_core::Span {
-                start: start.char,
-                end: end_char_loc,
-            },
-            kind: $kind,
-        }])
+                Some(vec![Token {
+                    span: harper_core::Span {
+                        start: start.char,
+                        end: end_char_loc,
+                    },
+                    kind: $kind,
+                }])
+            }
+            None => None,
+        }
     }};
 }
 
@@ -150,8 +156,8 @@ impl<'a> TypstTranslator<'a> {
         macro_rules! get_text {
             ($expr:expr) => {
                 self.doc
-                    .get(self.doc.range($expr.span()).unwrap())
-                    .expect("Unable to get text from typst document span!")
+                    .range($expr.span())
+                    .and_then(|range| self.doc.get(range))?
             };
         }
 
